@@ -172,6 +172,14 @@ class Ctx:
             "violations_detail": [{k: v[k] for k in ("rule", "key", "site", "detail")} for v in self.violations],
             "exhaustive": False,
         }
+        cov["normal_forms"] = {
+            "helpers_expanded": dict(getattr(self.repo, "expanded", {}) or {}),
+            "helpers_absorbed": sorted(getattr(self.repo, "absorbed", ()) or ()),
+            "functions_with_alias_expansion": getattr(self.repo, "alias_rewrites", 0),
+            "temporaries_folded": getattr(self.repo, "temp_folds", 0),
+            "rule": "gverif/inline.py: calls to functions absent from the reference inventory (baseline_funcs.txt) are expanded in the "
+                    "caller; single-assignment aliases of final attributes are expanded; `t = E` read once by the next statement is folded",
+        }
         if self.liveness is not None:
             cov["liveness"] = self.liveness
         ev = {
@@ -185,6 +193,8 @@ class Ctx:
                 "the CFG's exception model: any statement with a call/subscript/attribute may raise an Exception "
                 "instance; sys.exit raises SystemExit; os._exit/os.exec* do not return",
                 "specification tables in gverif/spec.py (RFC 9110/9112, PEP 3333, gunicorn docs) are correct",
+                "normal forms: attribute look-ups have no side effects; an attribute assigned only in __init__/init-phase methods "
+                "that a function cannot reach is not rebound while that function runs",
             ],
             "wall_s": round(wall, 3),
             "violations": len(self.violations),
